@@ -220,6 +220,20 @@ func c16Bubble(c c16Case) c08Result {
 			clients = append(clients, &client{spec: cc, id: -1})
 			continue
 		}
+		if cc.Phase == "tls-silent" && !c.TLS {
+			cc.Phase = "idle" // without TLS a connected, silent client is an idle one
+		}
+		if cc.Phase == "tls-silent" {
+			// connected to the TLS listener and silent: the handshake the server runs for it never gets a byte (a port
+			// scanner, a load balancer's TCP health check, a peer that is stuck)
+			conn, err := ln.Dial()
+			if err != nil {
+				return fail("connect-refused", "%v", err)
+			}
+			clients = append(clients, &client{p: &peer{c: conn, gate: make(chan struct{}, 1)}, spec: cc, id: -1})
+			synctest.Wait()
+			continue
+		}
 		if cc.Phase == "hook-fails" {
 			failHook[accepted] = true
 		}
@@ -516,7 +530,7 @@ func c16Bubble(c c16Case) c08Result {
 func TestC16Shutdown(t *testing.T) {
 	const name = "TestC16Shutdown"
 	rec := evid.New("C16", name, "0..6 connections, each in a drawn phase when Shutdown is called (idle, partial message sent, request in a handler of 0 / 1 s / 2.9 s / 3.1 s / 10 s honouring or ignoring its context (optionally with the next request already sent and waiting in the server's read loop), response blocked on a non-reading client, "+
-		"connecting during shutdown, accepted but not yet registered by the accept loop when Shutdown starts (the loop is held at a yield point and released once Shutdown waits or has returned), already closed, connect hook failing, silent but still connected after having sent something that is not a request message (a response message, another structure, a header announcing 2 MiB) and read the server's answer), on a plain or (one case in three) a TLS listener whose Accept reports the closure as a *net.OpError, as net.ErrClosed itself or as an error wrapping it, optionally a second, overlapping Shutdown call 1 / 500 / 2000 / 3500 ms after the first, with 0..2 completed requests before and an optional client action (send more / close) at 0.5 / 2 / 3.5 s after shutdown began; synctest bubble (the 3 s grace period is exact and free); "+
+		"connecting during shutdown, accepted but not yet registered by the accept loop when Shutdown starts (the loop is held at a yield point and released once Shutdown waits or has returned), already closed, connect hook failing, connected to a TLS listener without ever sending a byte of the handshake, silent but still connected after having sent something that is not a request message (a response message, another structure, a header announcing 2 MiB) and read the server's answer), on a plain or (one case in three) a TLS listener whose Accept reports the closure as a *net.OpError, as net.ErrClosed itself or as an error wrapping it, optionally a second, overlapping Shutdown call 1 / 500 / 2000 / 3500 ms after the first, with 0..2 completed requests before and an optional client action (send more / close) at 0.5 / 2 / 3.5 s after shutdown began; synctest bubble (the 3 s grace period is exact and free); "+
 		"oracle at the instant Shutdown returns and after 5 more seconds: listener closed, Serve returned ErrShutdown, no handler running or started later, census 0, every in-flight request answered or cancelled no earlier than 3 s, exactly one terminate hook per successful connect hook after the connection's last handler, none otherwise; "+
 		"non-trivial = a connection mid-handler and another connection in a different phase; distinct by case").Attach(t)
 	if rp := evid.LoadReplay(name); rp != nil {
@@ -530,7 +544,7 @@ func TestC16Shutdown(t *testing.T) {
 		return
 	}
 	testTLSConfig() // built once, outside any bubble
-	phases := []string{"idle", "partial", "handler", "handler", "handler", "stalled-response", "connecting", "accepted-held", "closed", "hook-fails", "invalid-message"}
+	phases := []string{"idle", "partial", "handler", "handler", "handler", "stalled-response", "connecting", "accepted-held", "closed", "hook-fails", "invalid-message", "tls-silent"}
 	rapid.Check(t, func(rt *rapid.T) {
 		var c c16Case
 		n := rapid.IntRange(0, 6).Draw(rt, "connections")
@@ -548,7 +562,7 @@ func TestC16Shutdown(t *testing.T) {
 			if cc.Phase == "invalid-message" {
 				cc.Invalid = rapid.SampledFrom([]string{"response-message", "other-structure", "oversize-header"}).Draw(rt, "invalid")
 			}
-			if rapid.IntRange(0, 2).Draw(rt, "acts") == 0 && cc.Phase != "closed" && cc.Phase != "connecting" && cc.Phase != "accepted-held" {
+			if rapid.IntRange(0, 2).Draw(rt, "acts") == 0 && cc.Phase != "closed" && cc.Phase != "connecting" && cc.Phase != "accepted-held" && cc.Phase != "tls-silent" {
 				cc.AfterMs = rapid.SampledFrom([]int{500, 2000, 3500}).Draw(rt, "afterms")
 				cc.AfterAct = rapid.SampledFrom([]string{"send", "close"}).Draw(rt, "afteract")
 			}
